@@ -1251,6 +1251,9 @@ func main() {
 		if f := os.Getenv("C13_WRITE_SNAPSHOT"); f != "" && err == nil {
 			ioutil.WriteFile(f, []byte(snapshotFile(tabs)), 0o644)
 		}
+		// registration verdicts of every (type, pointer, tag) combination (component 13)
+		run.WriteCasesV("cases_validate.v", []string{"Sql.Codec", "Sql.Validate"},
+			"Definition vmm (o : nat) (obs : list (desc * bool)) := validate_mm (env_of_tables [] [] [] []) o obs.\n", "vmm", 0, validateTerms(run))
 	}
 	run.Finish()
 }
